@@ -303,6 +303,11 @@ func (r *Resolver) Resolve(ctx context.Context, name string) (ResolveResult, err
 			}
 		}
 	}
+	// An IPv6 literal without a port is still in brackets, e.g. the host of
+	// https://[2001:db8::1]/.
+	if n := len(name); n > 2 && name[0] == '[' && name[n-1] == ']' && net.ParseIP(name[1:n-1]) != nil {
+		name = name[1 : n-1]
+	}
 	if name == "localhost" {
 		result.Address = []net.IP{
 			net.IP{127, 0, 0, 1},
